@@ -19,9 +19,11 @@ import (
 	"os"
 	"path/filepath"
 	"regexp"
+	"runtime/pprof"
 	"sort"
 	"strings"
 	"sync"
+	"time"
 
 	"github.com/AliceO2Group/Control/common/utils/uid"
 	"github.com/AliceO2Group/Control/core/integration"
@@ -590,11 +592,12 @@ func classYAML(name string, t *taskJ) string {
 }
 
 type world struct {
-	s    *simcore.Sim
-	rec  *vplugin.Recorder
-	mu   sync.Mutex
-	snap map[string]taskSnap // env id | role path -> snapshot
-	seq  int
+	s       *simcore.Sim
+	rec     *vplugin.Recorder
+	mu      sync.Mutex
+	snap    map[string]taskSnap // env id | role path -> snapshot
+	seq     int
+	retries int
 }
 
 type taskSnap struct {
@@ -649,9 +652,32 @@ type envObs struct {
 	Tasks []map[string]interface{} `json:"tasks,omitempty"`
 }
 
+// runEnv creates the environment; a failure that has nothing to do with channels (the
+// deployment of the simulated tasks timing out) is retried.
 func (w *world) runEnv(in envInput) gen.Case {
+	var c gen.Case
+	for try := 0; try < 4; try++ {
+		var unrelated bool
+		c, unrelated = w.runEnvOnce(in)
+		if !unrelated {
+			break
+		}
+		w.retries++
+	}
+	return c
+}
+
+func (w *world) runEnvOnce(in envInput) (gen.Case, bool) {
 	w.seq++
 	s := w.s
+	// watchdog: a case normally takes milliseconds (a few seconds when the deployment wait
+	// times out); if the core gets stuck, say where and give up instead of hanging the check
+	wd := time.AfterFunc(120*time.Second, func() {
+		fmt.Fprintf(os.Stderr, "h13: environment %d did not finish within 120 s; goroutine dump follows\n", w.seq)
+		_ = pprof.Lookup("goroutine").WriteTo(os.Stderr, 1)
+		os.Exit(3)
+	})
+	defer wd.Stop()
 	fl := flatten(&in.Root)
 	classOf := map[*taskJ]string{}
 	for i := range fl {
@@ -663,7 +689,7 @@ func (w *world) runEnv(in envInput) gen.Case {
 	}
 	wfName := in.Root.Name
 	var b strings.Builder
-	b.WriteString("name: " + wfName + "\ndefaults:\n  deploy_timeout: 10s\n")
+	b.WriteString("name: " + wfName + "\ndefaults:\n  deploy_timeout: 3s\n")
 	emitIn(&b, "", in.Root.Bind)
 	emitOut(&b, "", in.Root.Connect)
 	b.WriteString("roles:\n")
@@ -833,8 +859,13 @@ func (w *world) runEnv(in envInput) gen.Case {
 	if in.Label != "" {
 		kind = "env_corpus"
 	}
+	unrelated := err != nil && !strings.Contains(err.Error(), "could not match target") &&
+		!strings.Contains(err.Error(), "redefinition of global channel alias") && snap == nil
+	if unrelated {
+		fmt.Fprintf(os.Stderr, "h13: environment %d failed before CONFIGURE (retrying): %v\n", w.seq, err)
+	}
 	return gen.Case{Term: fmt.Sprintf("CEnv %s %s %s", gen.List(wts), obs, gen.List(portItems)), Kind: kind,
-		Input: map[string]interface{}{"env": in}, Obs: eo}
+		Input: map[string]interface{}{"env": in}, Obs: eo}, unrelated
 }
 
 // ---------------------------------------------------------------- workflow generator
@@ -1117,7 +1148,12 @@ func main() {
 			cases = append(cases, getWorld().runEnv(genEnv(rEnv)))
 		}
 	}
-	if err := gen.WriteCases(o, "C13", "From Verif Require Import Channels.", "c13_case", "report13", cases, nil); err != nil {
+	extra := map[string]any{}
+	if w != nil {
+		extra["environments_created"] = w.seq
+		extra["deploy_retries"] = w.retries
+	}
+	if err := gen.WriteCases(o, "C13", "From Verif Require Import Channels.", "c13_case", "report13", cases, extra); err != nil {
 		panic(err)
 	}
 }
